@@ -12,14 +12,14 @@ Section Carried.
   Variables CHUNK TAG : N.
   Variable ks : N -> N -> N.
   Variable tagc : N -> bytes -> bytes.
-  Variables site_index site_unwrap : N.
+  Variable site_index : N.
   Hypothesis HCHUNK : 0 < CHUNK.
 
   Notation ELI := (Src3e.EncryptionLayerInternal S).
   Notation FSR := (Src3e.EncryptionLayerFailSafeReader S).
   Notation fuel_rd := (rd_fuel CHUNK TAG).
   Notation g_read := (Src3e.elr_read S CHUNK TAG ks tagc fuel_rd 416 site_index 419).
-  Notation g_seek := (Src3e.elr_seek S CHUNK TAG ks tagc fuel_rd 416 site_index site_unwrap).
+  Notation g_seek := (Src3e.elr_seek S CHUNK TAG ks tagc fuel_rd 416 site_index 524).
   Notation g_fs_read := (Src3e.fs_read S CHUNK TAG ks tagc fuel_rd 416 site_index 419).
   Notation g_fs_new := (Src3e.EncryptionLayerFailSafeReader_new S CHUNK TAG ks fuel_rd).
   Notation abs := (abs S).
@@ -38,7 +38,9 @@ Section Carried.
     Hypothesis Hin : Refines S (enc_format CHUNK ks tagc plain) Rin.
     Hypothesis Hbig : nfull CHUNK (len plain) + 2 < 2 ^ 32.
     (* the u64 / i64 ranges of the Rust arithmetic: every tag-aware position of the stream fits a u64 (the D20
-       guard never fires on a position of the plaintext) and the plaintext length fits an i64 *)
+       guard never fires on a position of the plaintext) and the plaintext length fits an i64.  Since fixenc these
+       are premises of the MODEL theorem EncLayerProofs.enc_reader_refines (the model has the guard and the range
+       tests); the simulation SrcTie3Enc.enc_seek_sim needs no range premise any more. *)
     Hypothesis Hu64 : (len plain / CHUNK + 1) * (CHUNK + TAG) <= 2 ^ 64 - 1.
     Hypothesis Hi64 : len plain < 2 ^ 63.
 
@@ -49,42 +51,12 @@ Section Carried.
       unfold cts_fits, Src3e.U64_MAX. apply N.div_le_lower_bound; [lia|].
       set (X := len plain / CHUNK) in *. rewrite N.mul_1_r. assert (Hm : 1 * (CHUNK + TAG) <= (X + 1) * (CHUNK + TAG)) by (apply N.mul_le_mono_r; lia). lia.
     Qed.
-    Lemma start_ok_le q : q <= len plain -> start_ok CHUNK TAG q.
-    Proof.
-      intros Hq. unfold start_ok, Src3e.U64_MAX.
-      assert (Hd : q / CHUNK <= len plain / CHUNK) by (apply N.div_le_mono; lia).
-      assert (Hb : len plain / CHUNK + 1 <= (2 ^ 64 - 1) / (CHUNK + TAG)).
-      { apply N.div_le_lower_bound; [lia|]. rewrite N.mul_comm. exact Hu64. }
-      lia.
-    Qed.
-
-    Lemma seek_in_range_of_target (x : ELI) p w q : Renc (abs x) p -> target (len plain) p w = Some q ->
-      seek_in_range S CHUNK TAG x w.
-    Proof.
-      intros HR Ht. pose proof HR as (Hp & Hpos & _ & _ & HRin).
-      unfold target in Ht. destruct w as [q0|d|d]; cbn [seek_in_range].
-      - destruct ((0 <=? Z.of_N q0) && (Z.of_N q0 <=? Z.of_N (len plain)))%Z eqn:E; [|discriminate].
-        apply start_ok_le. lia.
-      - destruct ((0 <=? Z.of_N p + d) && (Z.of_N p + d <=? Z.of_N (len plain)))%Z eqn:E; [|discriminate].
-        rewrite <- Hpos. split; [lia|]. intros _ _. apply start_ok_le. lia.
-      - destruct ((0 <=? Z.of_N (len plain) + d) && (Z.of_N (len plain) + d <=? Z.of_N (len plain)))%Z eqn:E; [|discriminate].
-        split; [lia|]. intros i' ei ep Hsk Hep.
-        (* the inner layer reports the length of the wire form *)
-        destruct (ref_sk _ _ _ Hin (e_in (abs x)) _ (FromEnd 0) (len (enc_format CHUNK ks tagc plain)) HRin) as (i'' & Hsk' & _).
-        { unfold target. rewrite Z.add_0_r.
-          destruct ((0 <=? Z.of_N (len (enc_format CHUNK ks tagc plain))) && (Z.of_N (len (enc_format CHUNK ks tagc plain)) <=? Z.of_N (len (enc_format CHUNK ks tagc plain))))%Z eqn:E2; [|lia].
-          now rewrite N2Z.id. }
-        rewrite Hsk in Hsk'. injection Hsk' as _ ->.
-        rewrite (len_enc_format CHUNK TAG HCHUNK HTAG ks tagc Htag), (end_pos_of_wire_len CHUNK TAG HCHUNK HTAG) in Hep.
-        injection Hep as <-. split; [exact Hi64|]. intros _. apply start_ok_le. lia.
-    Qed.
-
     (* the TRANSLATED EncryptionLayerReader (read, seek from start / current / end) behaves as a cursor over
        the plaintext, over any inner stream that behaves as a cursor over its wire form *)
     Theorem enc_reader_refines_src fuel :
       Refines (EncReaderSrc fuel) plain (fun x p => Renc (abs x) p).
     Proof.
-      pose proof (enc_reader_refines CHUNK TAG HCHUNK HTAG ks tagc Htag S plain Rin Hin Hbig) as HM.
+      pose proof (enc_reader_refines CHUNK TAG HCHUNK HTAG ks tagc Htag S plain Rin Hin Hbig Hu64 Hi64) as HM.
       constructor.
       - intros x p HR. exact (ref_range _ _ _ HM _ _ HR).
       - intros x p n HR. cbn [EncReaderSrc rd st].
@@ -94,8 +66,7 @@ Section Carried.
         injection Hs as Hx ->. exists x', k. rewrite Hx. auto.
       - intros x p w q HR Ht. cbn [EncReaderSrc sk st].
         destruct (ref_sk _ _ _ HM (abs x) p w q HR Ht) as (s' & Hsk & HR').
-        pose proof (enc_seek_sim S CHUNK TAG ks tagc site_index site_unwrap fuel x w cts_fits_of_bound
-                      (seek_in_range_of_target x p w q HR Ht)) as Hs.
+        pose proof (enc_seek_sim S CHUNK TAG ks tagc site_index fuel x w cts_fits_of_bound) as Hs.
         rewrite Hsk in Hs. destruct (g_seek _ x w) as [x' r]. unfold absr in Hs. cbn [fst snd] in Hs.
         injection Hs as Hx ->. exists x'. rewrite Hx. auto.
     Qed.
@@ -103,12 +74,12 @@ Section Carried.
     (* new + initialize establish the invariant (the inner layer's own initialize succeeding) *)
     Theorem enc_open_spec_src fuel (inner_init : st S -> st S * res unit) i0 i1 pin x :
       Src3e.EncryptionLayerReader_new S i0 (Some tt) = Ok x -> inner_init i0 = (i1, Ok tt) -> Rin i1 pin ->
-      exists x', Src3e.elr_initialize S CHUNK TAG ks tagc fuel_rd inner_init 416 site_index site_unwrap (Datatypes.S fuel) x = (x', Ok tt) /\
+      exists x', Src3e.elr_initialize S CHUNK TAG ks tagc fuel_rd inner_init 416 site_index 524 (Datatypes.S fuel) x = (x', Ok tt) /\
                  Renc (abs x') 0.
     Proof.
       intros Hnew Hi HR.
-      pose proof (enc_open_src S CHUNK TAG ks tagc site_index site_unwrap inner_init fuel i0 i1 x cts_fits_of_bound Hnew Hi) as Hs.
-      destruct (enc_open_spec CHUNK TAG HCHUNK HTAG ks tagc Htag S plain Rin Hin Hbig i1 pin HR) as (s & Ho & HRs).
+      pose proof (enc_open_src S CHUNK TAG ks tagc site_index inner_init fuel i0 i1 x cts_fits_of_bound Hnew Hi) as Hs.
+      destruct (enc_open_spec CHUNK TAG HCHUNK HTAG ks tagc Htag S plain Rin Hin Hbig Hu64 Hi64 i1 pin HR) as (s & Ho & HRs).
       rewrite Ho in Hs. destruct (Src3e.elr_initialize _ _ _ _ _ _ _ _ _ _ _ x) as [x' r].
       unfold absr in Hs. cbn [fst snd] in Hs. injection Hs as Hx ->. exists x'. rewrite Hx. auto.
     Qed.
@@ -173,10 +144,10 @@ Section Ex.
   Let SC := Cursor wire.
   Let init (s : st SC) : st SC * res unit := (s, Ok tt).
   Let rdS := Src3e.elr_read SC CH TG toy_ks (toy_tag TG) (rd_fuel CH TG) 416 0 419 2%nat.
-  Let skS := Src3e.elr_seek SC CH TG toy_ks (toy_tag TG) (rd_fuel CH TG) 416 0 0 2%nat.
+  Let skS := Src3e.elr_seek SC CH TG toy_ks (toy_tag TG) (rd_fuel CH TG) 416 0 524 2%nat.
   Let opened :=
     match Src3e.EncryptionLayerReader_new SC 0 (Some tt) with
-    | Ok x => fst (Src3e.elr_initialize SC CH TG toy_ks (toy_tag TG) (rd_fuel CH TG) init 416 0 0 1%nat x)
+    | Ok x => fst (Src3e.elr_initialize SC CH TG toy_ks (toy_tag TG) (rd_fuel CH TG) init 416 0 524 1%nat x)
     | _ => Src3e.mkELI SC 0 (Src3e.AesGcm256_new 0) [] 0 0
     end.
   (* read 3, seek to 2 before the end, read to the end, seek back by 5 from the current position, read across a chunk *)
@@ -199,7 +170,7 @@ Section Ex.
   Let SB := Cursor bad.
   Let rdB := Src3e.elr_read SB CH TG toy_ks (toy_tag TG) (rd_fuel CH TG) 416 0 419 2%nat.
   Example translated_enc_reader_detects :
-    let x0 := fst (Src3e.elr_seek SB CH TG toy_ks (toy_tag TG) (rd_fuel CH TG) 416 0 0 2%nat
+    let x0 := fst (Src3e.elr_seek SB CH TG toy_ks (toy_tag TG) (rd_fuel CH TG) 416 0 524 2%nat
                      (Src3e.mkELI SB 0 (Src3e.AesGcm256_new 0) [] 0 0) (FromStart 0)) in
     let '(x1, r1) := rdB x0 10 in
     let '(x2, r2) := rdB x1 10 in
@@ -221,22 +192,36 @@ Section Ex.
     | _, _ => False
     end.
   Proof. vm_compute. reflexivity. Qed.
-  (* DIFFERENCE between EncLayer.eseek_start and the source (the D20 guard is not in the model): seek(Start(u64::MAX))
-     on an open reader.  Source: InvalidInput, nothing touched, the next reads go on (chunk 0, then chunk 1).
-     Model: InvalidInput too, but only AFTER seeking the inner layer to a chunk start beyond 2^64 (a position no u64
-     holds): the read that needs chunk 1 then finds the inner layer at its end and reports end of stream.
-     SrcTie3Enc.enc_seek_start_sim therefore has the premise start_ok, and enc_seek_start_guard states what the
-     source does otherwise. *)
+  (* REGRESSION (was `seek_start_guard_model_differs` before work package fixenc, when EncLayer.eseek_start lacked the
+     D20 guard): seek(Start(u64::MAX)) on an open reader.  Source and model: InvalidInput, nothing touched — the
+     state after the error is the same, and the next reads go on (chunk 0, then chunk 1) in both. *)
   Let x0 := fst (skS (Src3e.mkELI SC 0 (Src3e.AesGcm256_new 0) [] 0 0) (FromStart 0)).
   Let big := 2 ^ 64 - 1.
-  Example seek_start_guard_model_differs :
+  Example seek_start_guard_model_agrees :
     let '(x1, r1) := skS x0 (FromStart big) in
     let '(x2, r2) := rdS x1 4 in
     let '(x3, r3) := rdS x2 4 in
-    let '(s1, m1) := eseek_start CH TG toy_ks (toy_tag TG) SC (SrcTie3Enc.abs SC x0) big in
+    let '(s1, m1) := eseek CH TG toy_ks (toy_tag TG) SC (SrcTie3Enc.abs SC x0) (FromStart big) in
     let '(s2, m2) := eread CH TG toy_ks (toy_tag TG) SC s1 4 in
     let '(s3, m3) := eread CH TG toy_ks (toy_tag TG) SC s2 4 in
     (x1 = x0 /\ (r1, r2, r3) = (Err EInval, Ok [1; 2; 3; 4], Ok [5; 6; 7; 8])) /\
-    (m1, m2, m3) = (Err EInval, Ok [1; 2; 3; 4], Ok []).
+    (s1 = SrcTie3Enc.abs SC x0 /\ (m1, m2, m3) = (r1, r2, r3)) /\
+    (SrcTie3Enc.abs SC x1, SrcTie3Enc.abs SC x2, SrcTie3Enc.abs SC x3) = (s1, s2, s3).
+  Proof. vm_compute. repeat split. Qed.
+  (* out-of-range arguments of the other two arms, source = model, state after the error included:
+     End(i64::MIN) -> InvalidInput (negative target) after the inner layer was asked for its end; End(1) -> EndOfStream,
+     nothing touched; Current(i64::MAX) at position 0 -> InvalidInput ("chunk number out of range" of the Start arm it
+     recurses into, after the inner layer was moved); the cached chunk 0 is still delivered by the next read *)
+  Example seek_range_arms_model_agree :
+    let go (w : whence) :=
+      let '(x1, r1) := skS x0 w in let '(x2, r2) := rdS x1 4 in
+      let '(s1, m1) := eseek CH TG toy_ks (toy_tag TG) SC (SrcTie3Enc.abs SC x0) w in
+      let '(s2, m2) := eread CH TG toy_ks (toy_tag TG) SC s1 4 in
+      ((SrcTie3Enc.abs SC x1, r1, SrcTie3Enc.abs SC x2, r2), (s1, m1, s2, m2), (m1, m2)) in
+    let '(a1, b1, c1) := go (FromEnd (- 2 ^ 63)%Z) in
+    let '(a2, b2, c2) := go (FromEnd 1%Z) in
+    let '(a3, b3, c3) := go (FromCur (2 ^ 63 - 1)%Z) in
+    (a1 = b1 /\ a2 = b2 /\ a3 = b3) /\
+    (c1, c2, c3) = ((Err EInval, Ok [1; 2; 3; 4]), (Err EEos, Ok [1; 2; 3; 4]), (Err EInval, Ok [1; 2; 3; 4])).
   Proof. vm_compute. repeat split. Qed.
 End Ex.
